@@ -749,7 +749,7 @@ func runC12(p *kit.Program, r *kit.Report) {
 			dispatch = fn
 		}
 	}
-	if !r.Require(dispatch != nil && len(handledBy[dispatch]) >= 20, "anchor-unresolved: frame dispatcher (function of internal/agent comparing frame.Type with at least 20 Frame* constants)") {
+	if !r.Require(dispatch != nil && len(handledBy[dispatch]) >= 12, "anchor-unresolved: frame dispatcher (function of internal/agent comparing frame.Type with at least 12 Frame* constants)") {
 		return
 	}
 	r.Count("dispatcher_cases", len(handledBy[dispatch]))
@@ -863,7 +863,7 @@ func runC12(p *kit.Program, r *kit.Report) {
 		})
 	}
 	r.Count("open_literals", nOpen)
-	r.Require(nOpen >= 10, "floor: %d open literals with a RemainingPath matched to their SendToPeer, expected at least 10", nOpen)
+	r.Require(nOpen >= 5, "floor: %d open literals with a RemainingPath matched to their SendToPeer, expected at least 5", nOpen)
 
 	// ---------------- R4
 	sent := map[int64]string{}
@@ -906,7 +906,7 @@ func runC12(p *kit.Program, r *kit.Report) {
 			"dispatched", "frames of this type are built and sent but the receiving side never compares frame.Type with it where such frames arrive (dispatcher; internal/peer for link-level frames): they are silently dropped and the exchange they belong to never completes")
 	}
 	r.Count("frame_types_sent", len(sent))
-	r.Require(len(sent) >= 20, "floor: %d distinct frame types sent, expected at least 20", len(sent))
+	r.Require(len(sent) >= 12, "floor: %d distinct frame types sent, expected at least 12", len(sent))
 }
 
 func c12Uniq(in []string) []string {
